@@ -7,7 +7,21 @@ from . import lib
 from .simlib import SimCheck
 
 
+def chunked_case(cid, rnd):
+    """Every group's image spans several frames and every group has a process data task."""
+    groups = rnd.choice([2, 3])
+    ndev = rnd.randint(groups, 6)
+    devs = [dict(kind="dio", in_bits=rnd.choice([128, 256]), out_bits=rnd.choice([64, 128]), tag=i + 1) for i in range(ndev)]
+    tasks = [dict(op="tx_rx", group=g, cycles=rnd.randint(2, 4)) for g in range(groups)]
+    if rnd.random() < 0.5:
+        tasks.append(dict(op="register_read", device=rnd.randrange(ndev), reg=0x0130, count=rnd.randint(2, 5)))
+    return dict(id=cid, devices=devs, groups=groups, frames=rnd.choice([4, 8, 16]), frame_data=rnd.choice([40, 64, 64]), tasks=tasks,
+                schedule_seed=rnd.randint(1, 1 << 30), latency_us=sorted([rnd.randint(0, 500), rnd.randint(0, 500)]))
+
+
 def make_case(cid, rnd):
+    if rnd.random() < 0.25:
+        return chunked_case(cid, rnd)
     ndev = rnd.randint(2, 8)
     groups = rnd.choice([2, 2, 3])
     devs = []
@@ -72,7 +86,8 @@ def project(c):
     return dict(case=dict(id=case["id"]), result=c.get("result", "none"), detail=str(c.get("panic", ""))[:200],
                 solo_result=solo.get("result", "none"), tasks=tasks, solo=solos, slots=case.get("frames", 0),
                 max_in_flight=c.get("max_in_flight", 0), ntasks_frames=len(tasks), ntasks=len(tasks),
-                overtakes=c.get("overtakes", 0))
+                overtakes=c.get("overtakes", 0),
+                cancels=any(t.get("op") == "register_read_cancel" for t in case.get("tasks", [])))
 
 
 def run(pid, tier):
